@@ -21,5 +21,16 @@ for prop in C10 C15; do
     echo "$prop seed=$seed: $(wc -l < $OUT/$prop.$seed.1.txt) runs x 4 processes identical=$((1-fail))"
   done
 done
+# thread mode: the set of explored shuttle schedules must not depend on the worker count or process
+( cd /verif/sim && cargo build --release --features shuttle-mode --bin thsim --target-dir target-ts 2>/dev/null )
+TH=/verif/sim/target-ts/release/thsim
+for seed in 1 20240601; do
+  for t in 1 16 5 16; do
+    $TH run --programs 1500 --schedules 10 --seed $seed --threads $t --replay-dir $OUT/rp --out $OUT/th.$seed.$t.json >/dev/null
+    python3 -c "import json;d=json.load(open('$OUT/th.$seed.$t.json'));print(d['executions'],d['distinct_interleavings'],d['schedule_set_hash'])" >> $OUT/th.$seed.txt
+  done
+  if [ "$(sort -u $OUT/th.$seed.txt | wc -l)" != 1 ]; then echo "NONDETERMINISM thsim seed=$seed"; cat $OUT/th.$seed.txt; fail=1; fi
+  echo "thsim seed=$seed: $(head -1 $OUT/th.$seed.txt) (executions, distinct schedules, set hash) x 4 processes identical=$((1-fail))"
+done
 rm -rf "$OUT"
 exit $fail
